@@ -478,7 +478,10 @@ class P:
             if self.at('id', 'if'):
                 raise BodyError('match guard')
             self.expect('p', '=>')
-            body = self.expr()
+            if self.at('p', '{'):
+                body = ['block', self.block()]      # a block arm ends at its closing brace (no postfix, comma optional)
+            else:
+                body = self.expr()
             if self.at('p', ','):
                 self.next()
             out.append(['arm', pat, body])
